@@ -12,7 +12,7 @@ TD="$VERIF_DIR/.build/fuzz"
 WORK="$VERIF_DIR/.build/fuzzrun/$ID-$TARGET"
 rm -rf "$WORK"; mkdir -p "$WORK/corpus" "$WORK/artifacts"
 LOG="$WORK/build.log"
-( cd "$VERIF_DIR/harness" && cargo +nightly fuzz build -s none --fuzz-dir "$VERIF_DIR/fuzz" --target-dir "$TD" "$TARGET" ) >"$LOG" 2>&1 || { echo "fuzz_campaign: build failed (see $LOG)" >&2; tail -20 "$LOG" >&2; exit 2; }
+( cd "$VERIF_DIR/harness" && CARGO_TARGET_DIR="$TD" cargo +nightly fuzz build -s none --fuzz-dir "$VERIF_DIR/fuzz" --target-dir "$TD" "$TARGET" ) >"$LOG" 2>&1 || { echo "fuzz_campaign: build failed (see $LOG)" >&2; tail -20 "$LOG" >&2; exit 2; }
 BIN="$TD/x86_64-unknown-linux-gnu/release/$TARGET"
 # seed corpus: repository examples and README blocks (pipeline), or a few random tapes (structured)
 if [ "$TARGET" = "pipeline" ]; then
